@@ -412,6 +412,12 @@ func readHeader(in *io.Reader) (manifest []byte, mac []byte, err error) {
 		*in = io.MultiReader(bytes.NewReader(extraBytes), *in)
 	}
 
+	// The manifest and MAC are slices of the pooled buffer, which is given back
+	// to the pool when this function returns and may then be overwritten by any
+	// other stream: hand out copies
+	manifest = bytes.Clone(manifest)
+	mac = bytes.Clone(mac)
+
 	return manifest, mac, nil
 }
 
